@@ -20,7 +20,7 @@ func (g *gen) numLit() string {
 	case 6:
 		return r.Pick("1e3", "1E3", "1e+3", "1e-3", "1.5e3", "2e0", "1e21", "1e-7", "12e-1", "1.0e1", "0e5", "5e-324", "1.7976931348623157e308", "1e400", ".1e1", "1.e1")
 	case 7:
-		return r.Pick("0x1F", "0XfF", "0x0", "0xabc", "0xFFFFFFFF", "0x100000000", "0xDEADBEEF", "0x7FFFFFFFFFFFFFFF", "0x1fffffffffffff", "0xEEEEEEEEEE", "0xaaaaaaaaaa")
+		return r.Pick("0x1F", "0XfF", "0x0", "0xabc", "0xFFFFFFFF", "0x100000000", "0xDEADBEEF", "0x7FFFFFFFFFFFFFFF", "0x1fffffffffffff", "0xCEEEEEEEEE", "0xaaaaaaaaaa", "0x1e", "0xfe0b")
 	case 8:
 		if g.level >= 2015 {
 			return r.Pick("0o17", "0O7", "0o0", "0o777", "0o7777777777", "0o1000000000000000000000")
@@ -111,9 +111,9 @@ func (g *gen) strBody(q byte, n int) string {
 				p = "\\u0041"
 			}
 		case 20:
-			if q != '`' || true {
-				p = "\\\n" // line continuation
-			}
+			p = "\\\n" // line continuation
+			dollar = prevDollar
+			nul = prevNul
 		case 21:
 			p = r.Pick("\\a", "\\q", "\\-", "\\/", "\\.", "\\ ", "\\(", "\\e", "\\w", "\\z")
 			if strings.HasSuffix(p, "e") || strings.HasSuffix(p, "a") {
@@ -187,6 +187,9 @@ func (g *gen) strBody(q byte, n int) string {
 		}
 	}
 	s := b.String()
+	if (prevDollar || prevNul) && !g.known {
+		s += "z" // a following "+'{...'" / "+'1..'" would be merged into "${" (K09) or "\01" (N09)
+	}
 	if q == '`' && strings.HasSuffix(s, "$") {
 		// harmless, but keep things simple
 		s += " "
